@@ -421,3 +421,82 @@ func init() {
 		},
 	})
 }
+
+// ---- concurrent users of the key-set API (C06 refcount clause under schedules; C13 coverage) ----
+
+func init() {
+	bg := context.Background()
+	eng.Register(&eng.Scenario{
+		Name: "keyedref-concurrent", Props: []string{"C06"}, MustFinish: true, ObsNames: stdObs,
+		Doc:   "KeyedRefCount, two threads each AddKeyRef(a); check; Release (one of them twice) plus a third thread AddKeyRef(b)/RemoveKey(b): while a thread holds an unreleased reference its key is present; at the end no key remains",
+		Quick: eng.Bounds{PB: 2}, Thorough: eng.Bounds{PB: 3},
+		Body: func() {
+			delay := vsched.Choose(2) == 1
+			var opts []keyed.Option[string, int]
+			if delay {
+				opts = append(opts, keyed.WithReleaseDelay[string, int](time.Second))
+			}
+			k := keyed.NewKeyedRefCount(func(key string) (keyed.Routine, int) { return scriptRoutine(iUntilCancelled), 1 }, opts...)
+			k.SetContext(bg, false)
+			for i := 0; i < 2; i++ {
+				i := i
+				T("U", func() {
+					ref, _, _ := k.AddKeyRef("a")
+					vsched.Observe(oAcq, int64(i), 0, 0)
+					if _, ok := k.GetKey("a"); !ok {
+						fail("C06.ref-held-key-missing", "key a is not present although this thread holds an unreleased reference to it")
+					}
+					vsched.Point()
+					if _, ok := k.GetKey("a"); !ok {
+						fail("C06.ref-held-key-missing", "key a is not present although this thread holds an unreleased reference to it")
+					}
+					vsched.Observe(oRel, int64(i), 0, 0)
+					ref.Release()
+					if i == 0 {
+						ref.Release()
+					}
+				})
+			}
+			T("B", func() {
+				ref, _, _ := k.AddKeyRef("b")
+				k.GetKeys()
+				if !k.RemoveKey("b") {
+					fail("C06.removekey-result", "RemoveKey(b) reported that b did not exist while a reference to it was held")
+				}
+				ref.Release()
+			})
+			vsched.Settle() // auto timers: pending delayed removals have fired by now
+			if ks := k.GetKeys(); len(ks) != 0 {
+				fail("C06.keyset", "keys %v remain although every reference was released and every delay expired", ks)
+			}
+			k.ClearContext()
+		},
+	})
+	eng.Register(&eng.Scenario{
+		Name: "keyed-concurrent", Props: []string{"C06", "C07"}, MustFinish: true, ObsNames: stdObs,
+		Doc:   "Keyed, two API threads: T1 = SetKey(a,true); RestartRoutine(a); RemoveKey(a)  ||  T2 = SetKey(b,true); GetKeysWithData; SyncKeys([b],true); a is removed by T1 or by T2's SyncKeys, b stays: final key set {b}; per-key overlap oracle",
+		Quick: eng.Bounds{PB: 2}, Thorough: eng.Bounds{PB: 3},
+		Body: func() {
+			k := newKeyed(func(string, int) int { return iUntilCancelled }, false, false)
+			k.SetContext(bg, false)
+			T("T1", func() {
+				k.SetKey("a", true)
+				k.RestartRoutine("a")
+				k.RemoveKey("a")
+			})
+			T("T2", func() {
+				k.SetKey("b", true)
+				k.GetKeysWithData()
+				k.SyncKeys([]string{"b"}, true)
+			})
+			vsched.Settle()
+			if ks := sortedKeys(k.GetKeys()); len(ks) != 1 || ks[0] != "b" {
+				fail("C06.keyset", "final key set %v, want [b]", ks)
+			}
+			if vsched.Ctr(kActiveA) != 0 || vsched.Ctr(kActiveB) != 1 {
+				fail("C07.not-cancelled", "at quiescence %d instance(s) of a and %d of b are executing, want 0 and 1", vsched.Ctr(kActiveA), vsched.Ctr(kActiveB))
+			}
+			k.ClearContext()
+		},
+	})
+}
